@@ -12,7 +12,9 @@ paths, by abstract interpretation with an origin/alias domain:
           check_krr_fit / PCovR / KernelPCovR (clone/deepcopy first);
  R-HYPER  no store to a constructor parameter outside __init__;
  R-RESET  the attribute state after fit(A); fit(B) equals, attribute by attribute
-          (set and normal form), the state of a fresh estimator after fit(B);
+          (set and normal form), the state of a fresh estimator after fit(B); the
+          histories ending in fit_transform (KernelNormalizer, SparseKernelCenterer,
+          a flag changed in between) return what a fresh estimator returns;
  R-SELF   every fit returns the estimator itself; explicit fit_transform equals
           fit followed by transform on the same argument;
  R-RNG    no global RNG; every random source is seeded from self.random_state.
